@@ -156,7 +156,7 @@ def all_rules(vs, ts, maxlen=2):
 
 
 def mk_cfg(rules, S='S', extra_vars=(), extra_terms=()):
-    V, T = [S] + list(extra_vars), list(extra_terms)
+    V, T = [S] + [v for v in extra_vars if v != S], list(extra_terms)
     for v, rhs in rules:
         if v not in V:
             V.append(v)
